@@ -262,7 +262,7 @@ func TestVerifEngine(t *testing.T) {
 			case c < 19:
 				ops = append(ops, "unr"+strconv.Itoa(rr.Intn(3)))
 			default:
-				ops = append(ops, "poi"+strconv.Itoa(2+rr.Intn(2)))
+				ops = append(ops, "poi"+strconv.Itoa(vgen.Pick(rr, []int{2, 3, 5, 4})))
 			}
 		}
 		emit(fmt.Sprintf("g%d", i), remote, ops)
